@@ -3,7 +3,8 @@ CONSTANTS
   CT = FALSE
   TwoKeys = FALSE
   Wl2 = TRUE
-  MaxInit = 0
+  SameCls = TRUE
+  MaxInit = 1
   EarlyForget = FALSE
   SwallowList = FALSE
   Flags = {"RouteReplace", "RouteDel", "LinkList"}
